@@ -638,4 +638,10 @@ b("fx-f28", "C20", CFGF, "                if type_component != \"TER\" and (\n  
 b("fx-f26", "C19", "pyformlang/pda/cfg_variable_converter.py", "        if state.index_cfg_converter is None or \\\n                self._inverse_states_d.get(state) != state.index_cfg_converter:\n            self._set_index_state(state)", "        if state.index_cfg_converter is None:\n            self._set_index_state(state)", "stale-index-read")
 b("fx-f18", "C17", FSTF, "                    str((start_state, start_variable, state_p)),", "                    str((start_state, \"S\", state_p)),", "start-variable-used")
 
+b("fx-f36", "C08", "pyformlang/cfg/variable.py",
+  "            return isinstance(other, Variable) and \\\n                self._value == other.value\n",
+  "            return self._value == other.value\n", "eq-symmetric:Variable/Terminal")
+p("c08-p-eq-both-own-class", "C08", "pyformlang/cfg/variable.py",
+  "        if isinstance(other, CFGObject):\n            return isinstance(other, Variable) and \\\n                self._value == other.value\n",
+  "        if isinstance(other, Variable):\n            return self._value == other.value\n        if isinstance(other, CFGObject):\n            return False\n")
 VARIANTS = V
